@@ -19,6 +19,7 @@ import (
 	"google.golang.org/grpc/codes"
 	"google.golang.org/grpc/credentials/insecure"
 	"google.golang.org/grpc/status"
+	gproto "google.golang.org/protobuf/proto"
 )
 
 var updogBin = "/verif/.build/updog"
@@ -63,7 +64,9 @@ func startServer(file string, cache bool, preload bool) *server {
 			s.exitS = fmt.Sprintf("%v: %s", err, trunc(errb.String(), 600))
 			close(s.done)
 		}()
-		conn, err := grpc.NewClient(s.addr, grpc.WithTransportCredentials(insecure.NewCredentials()))
+		// the harness's own client must not be the limit: large responses are legitimate
+		conn, err := grpc.NewClient(s.addr, grpc.WithTransportCredentials(insecure.NewCredentials()),
+			grpc.WithDefaultCallOptions(grpc.MaxCallRecvMsgSize(1<<30), grpc.MaxCallSendMsgSize(1<<30)))
 		if err != nil {
 			infra("grpc client: %v", err)
 		}
@@ -221,11 +224,12 @@ func runSrvCase(o *Oracle, c *SrvCase, rep *Report) {
 	// one large batch: thousands of valid queries in a single request (about 100 KiB on the wire)
 	if len(c.Batches) > 0 {
 		var base *BatchQ
+		bestLen := 0
 		for bi := range c.Batches {
 			for i := range c.Batches[bi] {
 				b := &c.Batches[bi][i]
-				if b.W == nil && o.Ask("idx q "+b.Q.Toks()) != "err" {
-					base = b
+				if ans := o.Ask("idx q " + b.Q.Toks()); b.W == nil && ans != "err" && (base == nil || len(ans)+len(b.Q.Toks()) < bestLen) {
+					base, bestLen = b, len(ans)+len(b.Q.Toks()) // a small member: many of them make a large request
 				}
 			}
 		}
@@ -233,14 +237,19 @@ func runSrvCase(o *Oracle, c *SrvCase, rep *Report) {
 			req := &proto.QueryRequest{}
 			one := o.Ask("idx q " + base.Q.Toks())
 			var parts []string
-			for k := 0; k < 6000; k++ {
+			// about 400 KiB on the wire: far above any "small batch" assumption, far below gRPC's 4 MiB default limit
+			n := 400000 / (gproto.Size(qcaseToProto(&base.Q, 0)) + 4)
+			if n > 6000 {
+				n = 6000
+			}
+			for k := 0; k < n; k++ {
 				req.Queries = append(req.Queries, qcaseToProto(&base.Q, 0))
 				parts = append(parts, fmt.Sprintf("id=%d %s", k+1, one))
 			}
 			got, _ := s.query(req)
 			rep.Count("large-batches")
 			if want := "ok " + strings.Join(parts, " ; "); got != want {
-				rep.Violate(Violation{Kind: "input", Signature: "C13:response-mismatch", What: "a batch of 6000 valid queries in one request", Expected: trunc(want, 300), Actual: trunc(got, 300), Case: c})
+				rep.Violate(Violation{Kind: "input", Signature: "C13:response-mismatch", What: fmt.Sprintf("a batch of %d valid queries in one request (about 400 KiB)", len(parts)), Expected: trunc(want, 300), Actual: trunc(got, 300), Case: c})
 			}
 		}
 	}
